@@ -86,7 +86,8 @@ class NoteContainer(object):
         """
         if hasattr(notes, "notes"):
             for x in notes.notes:
-                self.add_note(x)
+                # copy the notes: they are modified in place by augment() etc.
+                self.add_note(Note(x))
             return self.notes
         elif hasattr(notes, "name"):
             self.add_note(notes)
